@@ -18,10 +18,13 @@ structure HProj where
 structure St where
   fixed : Bool := true
   tomb : Bool := false          -- hooks/C14-fix3.patch semantics (proposal)
+  seg4 : Bool := false          -- hooks/C14-fix4.patch: repaired SerializedSegment.ToSegment
   am : AdjMap := {}
   csrb : CsrB := {}
   ts : TS := {}
   handles : List (String × HProj) := [("proj", {})]
+  fops : Option (List Op) := none       -- `build DESC`: the ops the factories perform
+  fetched : Option (List Op) := none    -- `fetch …`: the AddEdge calls FetchDirectedGraph performed
   snapOn : Bool := false
 
 /-- a container seen through the `DirectedGraph` interface -/
@@ -53,6 +56,11 @@ def St.view (st : St) : String → Option View
   | "am" => some (amView st.am)
   | "csr" => some (csrView st.csrb.build)
   | "ts" => some { nodes := st.ts.nodes, numNodes := st.ts.numNodes, adj := st.ts.adjacent st.fixed }
+  | "fam" => st.fops.map (fun o => amView (AdjMap.build o))
+  | "fcsr" => st.fops.map (fun o =>
+      let c := Csr.ofOps o
+      { nodes := sofList c.nodes, numNodes := c.numNodes, adj := fun n d => sortD (c.adjacent n d) })
+  | "fetch" => st.fetched.map (fun o => csrView (Csr.ofOps o))
   | name => (st.projOf name).map (fun p => { nodes := p.nodes, numNodes := p.numNodes, adj := p.adjacentT st.tomb st.fixed })
 
 def perNode (v : View) (f : Nat → String) : String :=
@@ -127,7 +135,26 @@ def St.numEdges (st : St) : String → Option Nat
   | "am" => some (if st.fixed then st.am.numEdges else st.am.numEdgesOld)
   | "csr" => some st.csrb.build.numEdges
   | "ts" => some (st.ts.numEdgesT st.tomb)
+  | "fam" => st.fops.map (fun o => (AdjMap.build o).numEdges)
+  | "fcsr" => st.fops.map (fun o => (Csr.ofOps o).numEdges)
+  | "fetch" => st.fetched.map (fun o => (Csr.ofOps o).numEdges)
   | name => (st.projOf name).map (fun p => p.numEdgesT st.tomb)
+
+def reserved (name : String) : Bool :=
+  name == "am" || name == "csr" || name == "ts" || name == "store" || name == "fam" || name == "fcsr" || name == "fetch"
+
+def provOk (p : String) : Bool := p == "b64" || p == "tsd" || p == "tsd2"
+
+/-- `src>d1,d2;src>;src>~` -/
+def parseDesc (s : String) : Option Desc :=
+  if s == "-" then some [] else
+  (s.splitOn ";").mapM (fun ent => match ent.splitOn ">" with
+    | [k, v] => do
+      let src ← k.toNat?
+      if v == "~" || v == "" then some (src, []) else
+        let outs ← (v.splitOn ",").mapM String.toNat?
+        some (src, outs)
+    | _ => none)
 
 def dirOf : String → Dir
   | "out" => .out
@@ -162,7 +189,7 @@ def digests (st : St) : String :=
 
 def step0 (st : St) (ts : List String) : St × String :=
   match ts with
-  | ["graph"] => ({ fixed := st.fixed, tomb := st.tomb }, "ok")
+  | ["graph"] => ({ fixed := st.fixed, tomb := st.tomb, seg4 := st.seg4 }, "ok")
   | ["mode", "tomb"] => ({ st with tomb := true }, "ok")
   | ["mode", "fixed"] => ({ st with fixed := true }, "ok")
   | ["mode", "old"] => ({ st with fixed := false }, "ok")
@@ -179,7 +206,24 @@ def step0 (st : St) (ts : List String) : St × String :=
   | ["proj", dn, de] => derive st "proj" "store" dn de
   | ["proj2", dn, de] => derive st "proj" "proj" dn de
   | ["proj", name, parent, dn, de] =>
-      if name == "am" || name == "csr" || name == "ts" || name == "store" then (st, "bad-op") else derive st name parent dn de
+      if reserved name then (st, "bad-op") else derive st name parent dn de
+  | ["proj", name, parent, dn, de, prov] =>
+      -- the Duplex implementation of the arguments is irrelevant to a set: `b64`, `tsd`, `tsd2`
+      match prov.splitOn "/" with
+      | [a, b] => if reserved name || !(provOk a && provOk b) then (st, "bad-op") else derive st name parent dn de
+      | _ => (st, "bad-op")
+  | ["build", desc] => match parseDesc desc with
+      | some d => ({ st with fops := some (descOps d) }, "ok")
+      | none => (st, "bad-op")
+  | ["fetch", which] =>
+      let sel : Option (Edge → Bool) := match which with
+        | "all" => some (fun _ => true)
+        | "k0" => some (fun e => e.id % 2 == 0)
+        | "k1" => some (fun e => e.id % 2 == 1)
+        | _ => none
+      match sel with
+      | some f => ({ st with fetched := some (fetchOps f st.ts.edges) }, "ok")
+      | none => (st, "bad-op")
   | ["snap", name] => match st.projOf name, st.handles.lookup name with
       | some p, some h => (st, viewStr st p ++ ";" ++ argsOf h.argN h.argE)
       | _, _ => (st, "bad-op")
@@ -221,7 +265,7 @@ def step0 (st : St) (ts : List String) : St × String :=
         | none => (st, "panic")
       | none => (st, "bad-op")
   | ["toseg", ns, es] => match parseIds ns, parseIds es with
-      | some ns, some es => match toSegment ns es with
+      | some ns, some es => match (if st.seg4 then some (toSegment ns es) else toSegmentOld ns es) with
         | some sg => (st, s!"nodes={natList (segNodes sg)} edges={natList (segEdges sg)}")
         | none => (st, "index-panic")
       | _, _ => (st, "bad-op")
@@ -260,4 +304,7 @@ def suiteTomb : Suite := { σ := St, init := { tomb := true }, step := step }
 end Driver.C14
 
 def Driver.C14.suites : List (String × Driver.Suite) :=
-  [("c14", Driver.C14.suite), ("c14old", Driver.C14.suiteOld), ("c14t", Driver.C14.suiteTomb)]
+  [("c14", Driver.C14.suite), ("c14old", Driver.C14.suiteOld), ("c14t", Driver.C14.suiteTomb),
+   -- `s` = hooks/C14-fix4.patch landed (repaired ToSegment); selected by lib/props/c14.py from known_findings.json
+   ("c14s", { Driver.C14.suite with init := ({ seg4 := true } : Driver.C14.St) }),
+   ("c14ts", { Driver.C14.suite with init := ({ tomb := true, seg4 := true } : Driver.C14.St) })]
